@@ -3,6 +3,7 @@
 package rotation
 
 import (
+	"errors"
 	"context"
 	"time"
 
@@ -114,4 +115,45 @@ func VerifC08Rotate() {
 			vf.Assert("next-later-than-current", vf.And(vf.TimeLT(oCNB, oNNB), vf.TimeLT(oCNA, oNNA)))
 		}
 	}
+}
+
+func init() { VfHarnesses["VerifC08ReinitRemoveFails"] = VerifC08ReinitRemoveFails }
+
+// vfNoRemove is a storage whose Remove fails (a transient back-end error) and changes nothing.
+type vfNoRemove struct{ *vfs.Storage }
+
+func (s vfNoRemove) Remove(ctx context.Context, m nodeenrollment.MessageWithId) error {
+	return errors.New("injected: remove failed")
+}
+
+// C08 (reinitialization replaces both roots, always): arbitrary stored roots, reinitialization requested, and the
+// removal of the stored roots fails. The call may fail; if it reports success, neither returned nor stored root is
+// one of the old ones.
+func VerifC08ReinitRemoveFails() {
+	ctx := context.Background()
+	st := &vfs.Storage{}
+	t0 := vf.Now()
+	pre := &types.RootCertificates{Id: nodeenrollment.RootsMessageId,
+		Current: vfRoot("current", 0, vf.TimeFromNow("cNB", t0), vf.TimeFromNow("cNA", t0)),
+		Next:    vfRoot("next", 1, vf.TimeFromNow("nNB", t0), vf.TimeFromNow("nNA", t0))}
+	if err := pre.Store(ctx, st); err != nil {
+		panic(err)
+	}
+	out, err := RotateRootCertificates(ctx, vfNoRemove{st}, nodeenrollment.WithReinitializeRoots(true))
+	old := func(r *types.RootCertificate) bool {
+		return vf.Or(vf.EqBytes(r.PublicKeyPkix, vf.Pkix(0)), vf.EqBytes(r.PublicKeyPkix, vf.Pkix(1)))
+	}
+	if err == nil {
+		vf.Reach("success")
+		vf.Assert("reinitialization-never-keeps-an-old-root", vf.Not(vf.Or(old(out.Current), old(out.Next))))
+		loaded, lerr := types.LoadRootCertificates(ctx, st)
+		vf.Assert("persisted", lerr == nil)
+		if lerr == nil {
+			vf.Assert("stored-roots-are-new-too", vf.Not(vf.Or(old(loaded.Current), old(loaded.Next))))
+		}
+	} else {
+		vf.Reach("failed")
+		vf.Assert("failure-hands-out-nothing", out == nil)
+	}
+	vf.Reach("end")
 }
